@@ -16,6 +16,7 @@ import (
 
 	"github.com/btcsuite/btcd/wire/v2"
 	"github.com/lightninglabs/neutrino/internal/verifbubble"
+	"github.com/lightninglabs/neutrino/internal/verifdetrt"
 	"github.com/lightninglabs/neutrino/internal/verifeng"
 	"github.com/lightninglabs/neutrino/query"
 )
@@ -135,7 +136,7 @@ var c12opts = []struct {
 	}},
 }
 
-func c12Body(t *testing.T, depth, maxPeers int, bursts bool) func(c *verifeng.Chooser) {
+func c12Body(t *testing.T, depth, maxPeers int, bursts int) func(c *verifeng.Chooser) {
 	return func(c *verifeng.Chooser) {
 		out := verifbubble.Run(t, func() { c12Run(c, depth, maxPeers, bursts) })
 		switch {
@@ -154,11 +155,19 @@ func c12Body(t *testing.T, depth, maxPeers int, bursts bool) func(c *verifeng.Ch
 	}
 }
 
-func c12Run(c *verifeng.Chooser, depth, maxPeers int, bursts bool) {
+// bursts: 0 none, 1 one scheduler/select deviation per execution, 2 one
+// preemption at a synchronisation point per execution (with API calls in pairs)
+func c12Run(c *verifeng.Chooser, depth, maxPeers int, bursts int) {
 	var burst *verifbubble.Burst
-	if bursts {
+	if bursts > 0 {
 		burst = verifbubble.NewBurst(c)
 	}
+	if bursts == 2 && burst != nil {
+		burst.NoSched, burst.NoSelect = true, true
+		burst.Sync = verifdetrt.SyncMutex | verifdetrt.SyncSpawn | verifdetrt.SyncChan
+	}
+	var queryTask *verifbubble.Task
+	var queryBatch *c12batch
 	h := &c12h{c: c, finished: map[int]bool{}, handled: map[int]int{}, parked: map[int]chan struct{}{}, parkedAddr: map[int]string{}}
 	var stopTask *verifbubble.Task
 	peerFeed := make(chan query.Peer)
@@ -343,7 +352,13 @@ func c12Run(c *verifeng.Chooser, depth, maxPeers int, bursts bool) {
 						}
 					}
 				} else {
-					menu = append(menu, ev{"Query(1 request, default)", func() bool { newBatch(1, 0); return true }})
+					// a later batch with its own deadline or retry cap next
+					// to the first one (whose number is 0, the zero value
+					// of every batch lookup)
+					for _, opt := range []int{0, 3} {
+						opt := opt
+						menu = append(menu, ev{fmt.Sprintf("Query(1 request, %s)", c12opts[opt].name), func() bool { newBatch(1, opt); return true }})
+					}
 				}
 			}
 			for _, o := range h.outstanding {
@@ -377,6 +392,35 @@ func c12Run(c *verifeng.Chooser, depth, maxPeers int, bursts bool) {
 				b := b
 				if b.cancel != nil && !b.canceled {
 					menu = append(menu, ev{fmt.Sprintf("cancel(batch %d)", b.id), func() bool { b.canceled = true; close(b.cancel); return true }})
+				}
+			}
+			if bursts == 2 && len(batches) < 2 && len(h.parked) == 0 {
+				// Query and Stop by two callers at once: with a
+				// preemption inside either, Stop may fall between two
+				// statements of Query
+				// (the goroutine launched last gets the processor first)
+				for _, stopFirst := range []bool{false, true} {
+					stopFirst := stopFirst
+					name := "Query(1 request, default) and Stop by two callers at once, Stop running first"
+					if !stopFirst {
+						name = "Query(1 request, default) and Stop by two callers at once, Query running first"
+					}
+					menu = append(menu, ev{name, func() bool {
+						stopped = true
+						b := &c12batch{id: len(batches), optName: "default"}
+						b.reqs = append(b.reqs, nextReq)
+						reqs := []*query.Request{h.request(nextReq)}
+						nextReq++
+						queryBatch = b
+						if stopFirst {
+							queryTask = verifbubble.Go("Query", func() (any, error) { b.ch = wm.Query(reqs); return nil, nil })
+						}
+						stopTask = verifbubble.Go("Stop", func() (any, error) { wm.Stop(); return nil, nil })
+						if !stopFirst {
+							queryTask = verifbubble.Go("Query", func() (any, error) { b.ch = wm.Query(reqs); return nil, nil })
+						}
+						return true
+					}})
 				}
 			}
 			menu = append(menu, ev{"Stop", func() bool {
@@ -418,6 +462,14 @@ func c12Run(c *verifeng.Chooser, depth, maxPeers int, bursts bool) {
 		close(g)
 	}
 	verifbubble.Wait()
+	if queryTask != nil {
+		if !queryTask.Done() {
+			c.Fail("stuck", "query-caller-blocked-after-stop", "Query and Stop were called at the same time; Stop has returned (%v) and every goroutine is idle, but the caller of Query is still blocked inside the call", stopTask.Done())
+			return
+		}
+		batches = append(batches, queryBatch)
+		queryTask = nil
+	}
 	if stopTask != nil && !stopTask.Done() {
 		c.Fail("stuck", "stop-blocks-after-handler-returned", "Stop was called while a response handler was running; the handler has returned and every goroutine is idle, but Stop has not returned")
 		return
@@ -596,7 +648,7 @@ func TestVFXC12(t *testing.T) {
 		}
 		fmt.Sscanf(v.Config, "depth=%d peers=%d", &depth, &peers)
 		e := verifeng.FromEnv(v.Harness, v.Config)
-		_, x, err := e.ReplayFile(rp, c12Body(t, depth, peers, strings.Contains(v.Config, "in-burst")))
+		_, x, err := e.ReplayFile(rp, c12Body(t, depth, peers, map[bool]int{true: 1}[strings.Contains(v.Config, "in-burst")]+map[bool]int{true: 2}[strings.Contains(v.Config, "preemption")]))
 		if err != nil {
 			t.Fatal(err)
 		}
@@ -611,7 +663,7 @@ func TestVFXC12(t *testing.T) {
 		return
 	}
 	e := verifeng.FromEnv("C12-dispatcher", fmt.Sprintf("depth=%d peers=%d", depth, peers))
-	e.Run(c12Body(t, depth, peers, false))
+	e.Run(c12Body(t, depth, peers, 0))
 	if err := verifeng.AppendResult(&e.Res); err != nil {
 		t.Fatal(err)
 	}
@@ -619,7 +671,15 @@ func TestVFXC12(t *testing.T) {
 	bd := depth - 2
 	e = verifeng.FromEnv("C12-dispatcher", fmt.Sprintf("depth=%d peers=%d in-burst deviations<=1", bd, peers))
 	e.MaxDev = 1
-	e.Run(c12Body(t, bd, peers, true))
+	e.Run(c12Body(t, bd, peers, 1))
+	if err := verifeng.AppendResult(&e.Res); err != nil {
+		t.Fatal(err)
+	}
+	// one preemption at a synchronisation point (DESIGN 3.9)
+	pd := depth - 3
+	e = verifeng.FromEnv("C12-dispatcher", fmt.Sprintf("depth=%d peers=%d preemption at a synchronisation point<=1", pd, peers))
+	e.MaxDev = 1
+	e.Run(c12Body(t, pd, peers, 2))
 	if err := verifeng.AppendResult(&e.Res); err != nil {
 		t.Fatal(err)
 	}
